@@ -170,3 +170,25 @@ Example c01_discipline_example_failed_then_resumed :
   existsb (fun e => match e with ECbResult 0 Failed 0 PAUSE => true | _ => false end) (s_trace st) = true /\
   existsb (fun e => match e with EBResume 0 None => true | _ => false end) (s_trace st) = true.
 Proof. vm_compute. repeat split. Qed.
+
+(* NOTE (outside C01's quantifier: start_jobs_without_delay=False, model [run_b] / [schedule_new_tasks_busy],
+   tied to the code by the same correspondence driver): DESIGN section 7 item 10 is real. When the backend reports
+   fewer busy trials than the tuner lists as running, _schedule_new_tasks REBINDS its local name
+   running_trials_ids; the trial started in that call (trial 2 below) is never added to the set the loop polls:
+   it is started (EBStart 2), is busy in the backend (EBBusy [1; 2]) but no poll ever lists it.
+   Replay on the real code: findings/C01-sjwd-false-started-trial-never-polled.json. *)
+Definition ex_b_oracles : oracles :=
+  {| o_world := fun n => nth n [([], WInProgress); ([], WInProgress);
+                               ([{| r_metric := 1; r_cost := 1 # 2; r_ts := 4 |}], WCompleted); ([], WInProgress)]%Q ([], WInProgress);
+     o_ord := fun n => nth n [[]; [0; 1]; [0; 1]; [1]; [1]]%nat [];
+     o_dec := fun _ => CONTINUE;
+     o_sug := fun n => nth n [SStart 1 None; SStart 2 None; SStart 3 None] SNothing;
+     o_clk := fun _ => 0%Q; o_ext := fun n => Nat.leb 5 n |}.
+Example c01_note_sjwd_false_started_trial_never_polled :
+  let '(st, out) := run_b ex_params ex_b_oracles 10 in
+  out = Normal /\
+  existsb (fun e => match e with EBStart 2%nat _ _ => true | _ => false end) (s_trace st) = true /\
+  existsb (fun e => match e with EBBusy [1%nat; 2%nat] => true | _ => false end) (s_trace st) = true /\
+  forallb (fun e => match e with EBFetch l => negb (mem_nat 2%nat l) | _ => true end) (s_trace st) = true /\
+  count_ev (fun e => match e with EBFetch _ => true | _ => false end) (s_trace st) = 5%nat.
+Proof. vm_compute. repeat split. Qed.
